@@ -333,6 +333,70 @@ fn progress_bar(counts: &StateCounts, bar_size: usize) -> String {
     bar
 }
 
+#[cfg(feature = "verif")]
+pub fn verif_task_message(message: &str, seconds: usize, max_cols: usize) -> String {
+    task_message(message, seconds, max_cols)
+}
+
+#[cfg(feature = "verif")]
+pub fn verif_truncate(s: &str, max: usize) -> &str {
+    truncate(s, max)
+}
+
+/// Counts in the order want, ready, queued, running, done, failed.
+#[cfg(feature = "verif")]
+pub fn verif_progress_bar(counts: [usize; 6], bar_size: usize) -> String {
+    progress_bar(&verif_counts(counts), bar_size)
+}
+
+#[cfg(feature = "verif")]
+fn verif_counts(counts: [usize; 6]) -> StateCounts {
+    let mut c = StateCounts::default();
+    for (state, n) in [
+        BuildState::Want,
+        BuildState::Ready,
+        BuildState::Queued,
+        BuildState::Running,
+        BuildState::Done,
+        BuildState::Failed,
+    ]
+    .into_iter()
+    .zip(counts)
+    {
+        c.add(state, n as isize);
+    }
+    c
+}
+
+/// Renders one frame of the progress display for the given counts and running
+/// tasks (message, seconds running, last output line), printing it to stdout
+/// like the display thread does.
+#[cfg(feature = "verif")]
+pub fn verif_print_progress(counts: [usize; 6], tasks: &[(String, u64, Option<Vec<u8>>)]) {
+    let mut state = FancyState {
+        done: false,
+        pending: Vec::new(),
+        dirty: false,
+        dirty_cond: Arc::new(Condvar::new()),
+        counts: verif_counts(counts),
+        tasks: VecDeque::new(),
+        verbose: false,
+    };
+    let now = Instant::now();
+    for (i, (message, seconds, last_line)) in tasks.iter().enumerate() {
+        state.tasks.push_back(Task {
+            id: BuildId::from(i),
+            start: now.checked_sub(Duration::from_secs(*seconds)).unwrap_or(now),
+            message: message.clone(),
+            last_line: None,
+        });
+        if let Some(line) = last_line {
+            state.task_output(BuildId::from(i), line.clone());
+        }
+    }
+    state.print_progress();
+}
+
 #[cfg(test)]
 mod tests {
     use super::*;
